@@ -72,6 +72,9 @@ def cases(tier, seed):
         reals = list(itertools.product(("field", "current"), (0.25, 0.5), (1, 3, 10)))
     for drive, mult, win in reals:
         out.append(dict(fam="real", drive=drive, mult=mult, window=win))
+    # with screening (several inner iterations per step: the rule is about solve steps, not about inner iterations)
+    for drive, win in (("field", 1), ("field", 3), ("gentle_current", 3)):
+        out.append(dict(fam="real", drive=drive, mult=0.5, window=win, screening=True))
     # one SolverOptions object re-used for two solves and edited in between (the rule applies to the settings as they are now)
     for drive, how in itertools.product(("field", "gentle_current"), ("fixed_first", "larger_limits_first")):
         out.append(dict(fam="real", drive=drive, mult=0.5, window=3, reuse_options=how))
@@ -269,7 +272,7 @@ def run_real_case(case):
     opts = tdgl.SolverOptions(
         solve_time=(1.0 if gentle else 6.0), dt_init=s["dt_init"], dt_max=s["dt_max"], adaptive=True, adaptive_window=s["window"],
         max_solve_retries=s["maxr"], adaptive_time_step_multiplier=s["mult"], save_every=1, output_file="out.h5",
-        progress_interval=10**9, terminal_psi=tp,
+        progress_interval=10**9, terminal_psi=tp, include_screening=bool(case.get("screening")), screening_tolerance=1e-3,
     )
     if case.get("reuse_options"):
         # one options object for two solves: the first with other time-step settings, edited in place before the checked run
